@@ -20,7 +20,7 @@ import (
 )
 
 func dummyServers() map[glow.PublicKey]client.GCAServer {
-	return map[glow.PublicKey]client.GCAServer{detKey(7, 60).Pub: {Location: "127.0.0.1"}}
+	return map[glow.PublicKey]client.GCAServer{detKey(7, 60).Pub: {Location: myIP}}
 }
 
 func histCanon(dir string) string {
